@@ -14,6 +14,10 @@ Deciding specs:
       abbreviation offsets; ONE cache taken through [set,] populate(section X),
       populate(section Y != X with different tables at the same offsets) and then
       asked for every unit and probe offset: get = direct parse of the current section.
+  MCLineHist.tla (over LineSM.tla): ONE LineRows iterator over histories of <= 3 / 4
+      sequences (normal, tombstoned from the start, tombstoned mid-way, empty, open);
+      every sequence on the long-lived iterator = a fresh iterator (TLC), rows(),
+      sequences() and resume_from() = the as-coded LineSM rows (replay).
  G: every state prints a case with the history-independent expectation; gvh-cfiexec /
     gvh-reuse perform the uses on reused and on fresh state.
  V: gvh-cfiexec records 10^2..10^3 random programs on four long-lived contexts;
@@ -132,6 +136,61 @@ def check_repop(ctx, case, o):
     return ok
 
 
+def check_linehist(ctx, case, o):
+    """one LineRows iterator over several sequences: (b) its rows = LineSM rows, (a) every sequence
+    reported by sequences() and resumed on a fresh iterator gives the rows the continuous iterator
+    gave for it, and sequences() count / ranges match"""
+    exp = case["exp"]
+    hist = "h%s:%s" % (case["hdr"], "-".join(str(k) for k in case["pick"]))
+    if "rows" not in o or not isinstance(o.get("seqs"), dict):
+        ctx.violation("line:setup", "unit did not parse: %s" % json.dumps(o)[:300], case, o)
+        return False
+    ok = True
+
+    def seq_of_row(idx):            # which template of the history a row index of the continuous run belongs to
+        acc = 0
+        for j, rows in enumerate(exp["perseq"]):
+            acc += len(rows)
+            if idx < acc:
+                return j
+        return len(exp["perseq"]) - 1
+    if o["rows"] != exp["rows"] or o["end"] != exp["end"]:
+        k = next((i for i, (a, b) in enumerate(zip(exp["rows"], o["rows"])) if a != b), min(len(exp["rows"]), len(o["rows"])))
+        j = seq_of_row(k) if exp["rows"] else 0
+        extra = "extra-row" if len(o["rows"]) > len(exp["rows"]) else ("missing-row" if len(o["rows"]) < len(exp["rows"]) else "row")
+        ctx.violation("line:continuous:%s:template%s-after-%s" % (extra, case["pick"][j], case["pick"][j - 1] if j > 0 else "start"),
+                      "history %s: the long-lived iterator yields %s (%s) but a fresh iterator per sequence yields %s; first difference at row %d, "
+                      "in sequence #%d of the history" % (hist, json.dumps(o["rows"]), o["end"], json.dumps(exp["rows"]), k, j), case, o)
+        ok = False
+    got = o["seqs"]
+    if not got.get("ok"):
+        ctx.violation("line:sequences:err", "history %s: sequences() failed: %s" % (hist, got.get("err")), case, o)
+        return False
+    gl, el = got["list"], exp["seqs"]
+    if len(gl) != len(el):
+        ctx.violation("line:sequences:count", "history %s: sequences() reports %d sequences %s, expected %d %s" %
+                      (hist, len(gl), json.dumps([[g["start"], g["end"]] for g in gl]), len(el),
+                       json.dumps([[e["start"], e["end"]] for e in el])), case, o)
+        return False
+    for j, (e, g) in enumerate(zip(el, gl)):
+        if g["rend"] != "done" or g["rows"] != e["rows"]:
+            ctx.violation("line:resumed:rows", "history %s: sequence %d resumed on a fresh iterator yields %s (%s), expected %s" %
+                          (hist, j, json.dumps(g["rows"]), g["rend"], json.dumps(e["rows"])), case, o)
+            ok = False
+        elif g["end"] != e["end"] or g["start"] != e["start"]:
+            ctx.violation("line:sequences:range", "history %s: sequence %d range %s..%s, expected %s..%s" %
+                          (hist, j, g["start"], g["end"], e["start"], e["end"]), case, o)
+            ok = False
+    # resumed rows, concatenated, are the continuous rows up to the last end_sequence row
+    last = max([k for k, r in enumerate(o["rows"]) if (r[5] >> 2) & 1], default=-1)
+    cat = [r for g in gl for r in g["rows"]]
+    if ok and cat != o["rows"][:last + 1]:
+        ctx.violation("line:resumed:concat", "history %s: resumed sequences %s do not add up to the continuous rows %s" %
+                      (hist, json.dumps(cat), json.dumps(o["rows"])), case, o)
+        ok = False
+    return ok
+
+
 def seq_same(exp, got, with_entry):
     """lists of {res, e|cur}; entries after an error are not compared; error kinds are not fixed"""
     if len(exp) != len(got):
@@ -230,6 +289,25 @@ def run(ctx):
                 ctx.sample({"profile": prof, "sys": case["sys"], "info": case.get("info", case.get("steps")), "strat": case.get("strat"),
                             "expect": case.get("gets", case.get("dfs"))})
 
+    # --- line rows: one LineRows iterator over histories of sequences (replayed by C04's driver)
+    line = {p: ctx.build("gvh-linesm", p) for p in profiles}
+    r3 = ctx.tlc("MCLineHist", write_cfg("MCLineHist_run", {"MaxSeq": 3 if q else 4, "Headers": "{1, 2}" if q else "{1, 2, 3}"}), timeout=7200)
+    if r3.ncases == 0:
+        raise ToolError("no line history cases")
+    for prof, b in line.items():
+        obs = ctx.replay(b, r3.cases_path, tag="line-" + prof)
+        for i, case in enumerate(read_ndjson(r3.cases_path)):
+            o = obs.get(i)
+            if o is None or "outcome" in o:
+                ctx.violation("line:%s:%s" % ((o or {}).get("outcome"), (o or {}).get("loc", "")),
+                              "did not return normally: %s" % json.dumps(o)[:300], case, o)
+                continue
+            good = check_linehist(ctx, case, o)
+            ctx.nontrivial("line" + canon([case["hdr"], case["pick"]]))
+            if good and len(case["pick"]) == 3 and case["pick"][0] == 6 and case["pick"][1] == 3 and prof == "dev":
+                ctx.sample({"sys": "linehist", "history": case["pick"], "rows": case["exp"]["rows"],
+                            "sequences": [[e["start"], e["end"]] for e in case["exp"]["seqs"]]})
+
     # --- V: long random histories on long-lived contexts (the model context persists too)
     n = 150 if q else 1500
     tr = ctx.record(cfi["dev"], "hist-trace.ndjson", ["--seed", ctx.seed + 17, "--n", n, "--corpus", 0, "--maxlen", 60])
@@ -240,7 +318,8 @@ def run(ctx):
         "error kinds are compared only where C06 fixes them (StackFull / TooManyRegisterRules / CfiInstructionInInvalidContext)",
         "DIE model: DWARF 4, 32-bit, forms data1/data2/udata/flag_present, no DW_AT_sibling (sibling fast path is covered by C02)",
         "cursor / tree clones are compared through the sequences they yield (iterators are plain values)",
-        "LineRows::resume and other iterator kinds are not modelled here",
+        "line rows: the machine is LineSM.tla's as-coded model (C04); sequence templates are fixed, only their order varies; the replay driver is C04's gvh-linesm",
+        "other iterator kinds (range / location lists, CfiEntriesIter) are not modelled here",
     ]
     ctx.finish("model_checking",
                rule="one case per TLC state: a history of context uses (pool index, rows|info) / a unit-offset sequence x cache strategy / "
